@@ -271,6 +271,9 @@ def typed_calls(rng: random.Random, full: bool) -> Iterator[Tuple[str, str, List
         for p in ([], {}, ['given'], {'x': None}):
             yield 'defaults-that-compare-equal-across-methods', m, p
         yield 'unbound', m, {'y': 1}
+    # an application error object whose truth value follows its content (an empty collection of field errors is falsy)
+    for p in ([], [[]], [['name: required']], {'entries': []}, {'entries': ['a', 'b']}, ['single']):
+        yield 'error-object-with-a-truth-value-of-its-own', 'fielderr', p
     for kind in KEYED_KINDS:
         yield 'mapping-with-non-string-keys', 'keyed', [kind]
         yield 'mapping-with-non-string-keys', 'keyed', {'kind': kind, 'how': 'error'}
